@@ -268,6 +268,21 @@ def _src(text, n):
     return re.sub(r"\s+", "", text[_off(r["begin"]):_off(r["end"], True)])
 
 
+SYNC_MEMBERS = {"refcount"}     # a write to one of these members is an event too (the count a request is released by)
+
+
+def _writes_member(n):
+    for k in ("UnaryOperator", "BinaryOperator", "CompoundAssignOperator"):
+        for u in _walk(n, k, []):
+            op = u.get("opcode", "")
+            if (k == "UnaryOperator" and op in ("++", "--")) or (k != "UnaryOperator" and op.endswith("=") and op not in ("==", "!=", "<=", ">=")):
+                tgt = u["inner"][0]
+                for me in _walk(tgt, "MemberExpr", []):
+                    if me.get("name") in SYNC_MEMBERS:
+                        return True
+    return False
+
+
 def _has_sync(n):
     for c in _walk(n, "CallExpr", []):
         try:
@@ -275,7 +290,7 @@ def _has_sync(n):
                 return True
         except Untranslatable:
             pass
-    return False
+    return _writes_member(n)
 
 
 def sync_skeleton(repo, cfile, fn):
@@ -585,6 +600,42 @@ def run(repo, outdir):
             else:
                 L.append("def sendreplyProg : Option (List String) := none")
                 facts["sendreplyProg"] = {"status": "untied"}
+    L.append("")
+
+    # G6b: the reference count of a request is only written under its own mutex (C17)
+    for lname, cfile, fn in [("newrqrefSync", "radsecproxy.c", "newrqref"), ("freerqSync", "radsecproxy.c", "freerq")]:
+        sk = None
+        try:
+            sk = sync_skeleton(repo, cfile, fn)
+        except Exception:
+            sk = None
+        if sk:
+            # what follows the last unlock in freerq is the release itself (frees): only the protocol part is kept
+            L.append(f"def {lname} : Option (List String) := some {json.dumps(sk)}")
+            facts[lname] = {"status": "ok", "value": sk}
+        else:
+            L.append(f"def {lname} : Option (List String) := none")
+            facts[lname] = {"status": "untied"}
+    try:
+        writers = set()
+        for cf in sorted(glob.glob(os.path.join(repo, "*.c"))):
+            txt = open(cf, encoding="latin-1").read()
+            # function bodies by a light scan: a line starting a definition, then lines until a line that is just "}"
+            cur = None
+            for line in txt.split("\n"):
+                m = re.match(r"^[A-Za-z_][\w \*]*?\b(\w+)\s*\([^;]*\)\s*\{\s*$", line)
+                if m and not line.startswith((" ", "\t")):
+                    cur = m.group(1)
+                elif line.startswith("}"):
+                    cur = None
+                elif cur and re.search(r"(\+\+|--)\s*\w+->refcount|\w+->refcount\s*(\+\+|--|[-+]?=(?!=))", line) and cur not in ("newrealmref", "freerealm", "addrealm"):
+                    writers.add(cur)
+        writers = sorted(writers)
+        L.append(f"def rqRefcountWriters : Option (List String) := some {json.dumps(writers)}")
+        facts["rqRefcountWriters"] = {"status": "ok", "value": writers}
+    except Exception:
+        L.append("def rqRefcountWriters : Option (List String) := none")
+        facts["rqRefcountWriters"] = {"status": "untied"}
     L.append("")
 
     # G4 stage orders
